@@ -295,7 +295,47 @@ def rstatus_http_status_table(ctx):
     http_status_table(ctx, "C19.STATUS", ('method_not_allowed', 'unsupported_content_type', 'from_method_response'))
 
 
-RULES = [r1_gate, r2_chunk_independence, r3_is_json, r4_content_length_use, r5_loop_exits, r6_proxy_rewrites_only_what_it_proxies, r7_gate_is_the_only_gate, r8_body_reaches_read_body_untouched, rstatus_http_status_table]
+def r9_size_accounting_is_not_on_the_trimmed_buffer(ctx):
+    """read_body drains leading whitespace from its buffer once the first `{` / `[` has been seen, so the buffer's length
+    is not the number of bytes received - how far it falls short depends on where the chunk boundaries are. Size accounting
+    therefore belongs to the Limited wrapper alone: the only ordering comparison against the limit parameter in read_body
+    is the up-front Content-Length test (other operand = the body_size parameter); and (= C07.R4) every frame is read
+    through that wrapper."""
+    F, R = ctx.F, ctx.R
+    tr = ctx.tracer(follow_callers=False, follow_fields=False, inline_calls=False)
+    n = 0
+    for b in F.nested(F.one(r"^jsonrpsee_core::http_helpers::read_body$")):
+        R.fn(b)
+        for bi, blk in enumerate(b.blocks):
+            if bi not in b.reachable or blk.get("cleanup"):
+                continue
+            for st in blk["st"]:
+                if st["s"] != "assign" or st["rv"]["k"] != "bin" or st["rv"]["op"] not in ("Lt", "Le", "Gt", "Ge"):
+                    continue
+                sides = [tr.origins(b, o) for o in (st["rv"]["a"], st["rv"]["b"])]
+                def is_limit(lv):
+                    return any((l.kind == "param" and l.detail.get("name") == "max_body_size") or (l.kind in ("upvar", "field") and "max_body_size" in flow.leaf_str(l)) or "max_body_size" in " ".join(l.chain) for l in lv)
+                lim = [is_limit(lv) for lv in sides]
+                if lim[0] == lim[1]:
+                    continue
+                n += 1
+                other = sides[1] if lim[0] else sides[0]
+                shrunk = []
+                for l in other:
+                    if l.kind == "call" and re.search(r"Vec::<.*>::len$|VecDeque::<.*>::len$|BytesMut::len$|String::len$", l.detail.get("callee") or "") and l.where == b.path:
+                        q = op_place(l.detail["args"][0]) if l.detail.get("args") else None
+                        base = flow._local_copies_back(b, q["l"], 6) if q is not None else set()
+                        for c in b.calls_to(r"Vec::<.*>::(drain|truncate|remove|split_off|retain|clear|swap_remove)$|VecDeque::<.*>::(drain|truncate|pop_front|clear)$|BytesMut::(advance|split_to|truncate|clear)$|Buf::advance$|String::(drain|truncate|remove|clear)$"):
+                            cq = op_place(c.args[0]) if c.args else None
+                            if cq is not None and flow._local_copies_back(b, cq["l"], 6) & base:
+                                shrunk.append((l, c))
+                R.check(not shrunk, "C19.R9", "read_body:limit-compared-with:%s" % "-".join(sorted({l.kind if l.kind != "call" else "call:" + (l.detail.get("callee") or "").split("::")[-1] for l in other}))[:60], "the limit is not compared with the length of a buffer that is trimmed while it is filled", "read_body compares the size limit with the length of a buffer that it also shrinks (%s): the buffer is trimmed of leading whitespace while it is filled, so its length depends on where the chunk boundaries fall - the same bytes are accepted in one split and answered 413 in another (and differently again with a Content-Length)" % sorted({short(c.name()) + " at " + where(c) for _, c in shrunk}), "%s:%d" % (b.file, st["sp"][0]))
+    R.floor("C19.R9", n, 1, "comparisons against the size limit in read_body")
+    from . import c07
+    c07.r4_limit_before_read(ctx)
+
+
+RULES = [r9_size_accounting_is_not_on_the_trimmed_buffer, r1_gate, r2_chunk_independence, r3_is_json, r4_content_length_use, r5_loop_exits, r6_proxy_rewrites_only_what_it_proxies, r7_gate_is_the_only_gate, r8_body_reaches_read_body_untouched, rstatus_http_status_table]
 
 LEVEL_TEXT = (
     "Structural necessary conditions decided from the type-checked program: the method/content-type gate by dominance on "
